@@ -16,11 +16,10 @@ From Zap Require Import Base.Wire Enc.Bytes Enc.Decimal Enc.Base64 Enc.Fields En
 Theorem C02_decodes : forall c ctxs ent fs,
   q_nil_caller_guard c = true -> q_layout_escaped c = true ->
   forallb wf_flds ctxs = true -> wf_flds fs = true -> wf_entry ent = true ->
-  owf_ctxs ctxs -> owf_flds fs -> rend_pre (t_rend (time_val ent)) ->
   exists out,
     encode_entry c false (with_chain c false ctxs) ent fs = Some out /\
     line_obj (resolved_le c) out = Some (jv_mem (entry_members c ctxs ent fs)).
-Proof. exact entry_valid. Qed.
+Proof. exact entry_valid_wf. Qed.
 Print Assumptions C02_decodes.
 
 (* strings are recoverable byte for byte, each invalid UTF-8 byte replaced by U+FFFD; valid ASCII untouched *)
@@ -63,9 +62,7 @@ Proof. exact map_agrees. Qed.
 Print Assumptions C02_map_agrees.
 
 (* wire level (line half; the map half is C02_map_agrees, compared on the wire after sorting keys) *)
-Theorem C02_wire : forall i, wf i = true ->
-  owf_ctxs (ec_ctxs (dec_case i)) -> owf_flds (ec_fs (dec_case i)) -> rend_pre (t_rend (time_val (ec_ent (dec_case i)))) ->
-  spec_line i (model i) = true.
+Theorem C02_wire : forall i, wf i = true -> spec_line i (model i) = true.
 Proof. exact wire_line. Qed.
 Print Assumptions C02_wire.
 
